@@ -62,6 +62,9 @@ def gen_case(rng, cid, table, force=None):
     if rng.random() < 0.3:
         rng.shuffle(mapnames)
     defo, defs = rng.choice([0, 0, 1, -1, 2, -3, 5]), rng.choice([0, 0, 1, -1, 3])
+    if rng.random() < 0.12:
+        # far transpositions (eleven and more presses of an octave key, or configured): no key, or only a few, has a pitch
+        defo, defs = rng.choice([11, -11, 12, -13, -14, 17, 21, -21, 22, 10, -10]), rng.choice([0, 0, 4, -4, 100, -100])
     defch = rng.choice([1, 1, 2, 9, 16])
     ops.append("cfg.begin %s %d %d %d %d 64" % (rng.choice(["off", "no_repeat", "interrupt", "retrigger"]), defo, defs, defch, rng.randrange(nmaps)))
     led_codes = [code_of[n] for n in leds if n in code_of]
@@ -108,6 +111,12 @@ def gen_case(rng, cid, table, force=None):
             body += ["key - %d 1" % act_keys["panic"], "key - %d 0" % act_keys["panic"], "led.state", "led.frame"]
         elif rng.random() < 0.5:
             body += ["midiin %02x%02x00" % (0x90 | chx, keymaps[defmap][c] + off0), "led.state", "led.frame"]
+    if abs(off0) > 127 and defmap < len(keymaps) and rng.random() < 0.8:
+        # a MIDI-input note that is a key's pitch only modulo 256: that key has no pitch, nothing may light up
+        cands = [c for c in keymaps[defmap] if c in led_codes and (keymaps[defmap][c] + off0) % 256 <= 127]
+        for c in rng.sample(cands, min(len(cands), 2)):
+            chx = rng.choice([defch - 1, defch - 1, rng.randrange(16)])
+            body += ["midiin %02x%02x40" % (0x90 | chx, (keymaps[defmap][c] + off0) % 256), "led.state", "led.frame"]
     if lit and rng.random() < 0.4:
         # the same pitch sounding on several MIDI-input channels at once: the current one, a lower and a higher one, in a
         # random order of arrival — the current channel's external colour must win, else the lowest other channel's colour
@@ -178,8 +187,6 @@ def expected_led(meta, name, st, sounding, ext, shifted):
     act = next((a for a, c in meta["act_keys"].items() if c == code), None)
     if code in km:
         pitch = km[code] + offset
-        if abs(offset) > 127:
-            return None          # byte(offset) aliases: outside the stated range of the theorem and of this monitor
         if 0 <= pitch <= 127:
             if pitch in sounding:
                 return (active, 0, "active")
@@ -195,7 +202,7 @@ def expected_led(meta, name, st, sounding, ext, shifted):
             return (rgb(base), 0, "class-colour")
         # out of range: unavailable — unless the key is also an action key (then the action rule below applies)
         if act is None:
-            # a pitch sounding / external pitch can still alias onto this key only beyond |offset| 127
+            # (no pitch that is sounding anywhere can be this key's: it has none)
             return (unavail, 0, "unavailable")
     if act is not None and code not in km or (act is not None and not (0 <= km.get(code, 0) + offset <= 127)):
         w1, w2, w3 = (27,) * 3, (100,) * 3, (255,) * 3
@@ -385,7 +392,6 @@ def run(prop, tier, seed, verdict):
         "exec_wall_s": round(time.time() - t0, 1),
         "assumptions": ["frames are sampled after 45 ms of quiescence (two refresh periods)",
                         "the class colours after the HSV round trip of go-colorful are taken from the real shiftColor (measured: at most 1/255 per component)",
-                        "|12*octave + semitone| <= 127 (beyond it byte(offset) aliases; generated only through defaults within range)",
                         "one LED per key name, len(Colors) = len(LEDs), each action bound to at most one key"],
         "trusted_extra": ["openrgb-go wire encoding (the fake server decodes what the real client sends)", "go-colorful HSV conversion"],
     }
